@@ -227,12 +227,21 @@ fn extreme_one(doc: &[u8], n: i32, acc: &mut Acc, ctx: &dyn Fn() -> serde_json::
     let kp = [to_keypath(&KP::Index(n))];
     let kp2 = [to_keypath(&KP::Index(0)), to_keypath(&KP::Index(n))];
     let one = enc(&RVal::u(1));
-    let checks: [(&str, Box<dyn Fn() + '_>); 6] = [
+    let checks: [(&str, Box<dyn Fn() + '_>); 7] = [
         ("delete_by_index", Box::new(|| { let mut b = vec![]; let _ = jsonb::delete_by_index(doc, n, &mut b); })),
         ("array_insert", Box::new(|| { let mut b = vec![]; let _ = jsonb::array_insert(doc, n, &one, &mut b); })),
         ("get_by_keypath", Box::new(|| { let _ = jsonb::get_by_keypath(doc, kp.iter()); let _ = jsonb::get_by_keypath(doc, kp2.iter()); })),
         ("delete_by_keypath", Box::new(|| { let mut b = vec![]; let _ = jsonb::delete_by_keypath(doc, kp.iter(), &mut b); let mut b2 = vec![]; let _ = jsonb::delete_by_keypath(doc, kp2.iter(), &mut b2); })),
         ("get_by_index", Box::new(|| { let _ = jsonb::get_by_index(doc, n as u32 as usize); let _ = jsonb::get_by_index(doc, n as i64 as usize); })),
+        ("display-of-extreme-index", Box::new(|| {
+            for p in idx_paths(n) {
+                let ip = to_impl_path(&p);
+                let _ = format!("{}", ip);
+                let _ = format!("{:?}", ip);
+            }
+            let k = jsonb::keypath::KeyPaths { paths: vec![jsonb::keypath::KeyPath::Index(n)] };
+            let _ = format!("{}", k);
+        })),
         ("jsonpath-index", Box::new(|| {
             for p in idx_paths(n) {
                 let ip = to_impl_path(&p);
